@@ -25,7 +25,7 @@ PROPERTY = 'C04'
 
 METHODS = ['SAFECOOKIE', 'COOKIE', 'HASHEDPASSWORD', 'NULL']
 COOKIE = b' ' + bytes(range(101, 131)) + b'\n'        # a cookie is 32 arbitrary bytes: these begin and end with white space
-COOKIE_CONDS = ['absent', 'dir', 'len0', 'len31', 'len33', 'valid', 'valid-odd-path', 'no-cookiefile']
+COOKIE_CONDS = ['absent', 'dir', 'len0', 'len31', 'len33', 'valid', 'valid-odd-path', 'valid-utf8-path', 'no-cookiefile']
 PROVIDERS = ['none', 'pw', 'empty', 'deferred', 'coroutine', 'raises']
 PASSWORD = 'pw'
 
@@ -50,6 +50,10 @@ def workdir():
         os.makedirs(odd, exist_ok=True)
         with open(os.path.join(odd, 'cookie file'), 'wb') as f:
             f.write(COOKIE)
+        utf = os.path.join(_WORK, 'caf\u00e9 \u4e2d')
+        os.makedirs(utf, exist_ok=True)
+        with open(os.path.join(utf, 'cookie'), 'wb') as f:
+            f.write(COOKIE)
         os.makedirs(os.path.join(_WORK, 'dir'), exist_ok=True)
         import atexit
         atexit.register(lambda: shutil.rmtree(_WORK, ignore_errors=True))
@@ -60,13 +64,15 @@ def cookie_path(cond):
     w = workdir()
     if cond == 'valid-odd-path':
         return os.path.join(w, 'od d\\pa"th\x01', 'cookie file')
+    if cond == 'valid-utf8-path':
+        return os.path.join(w, 'caf\u00e9 \u4e2d', 'cookie')
     if cond == 'no-cookiefile':
         return None
     return os.path.join(w, cond)
 
 
 def cookie_usable(cond):
-    return cond in ('valid', 'valid-odd-path')
+    return cond in ('valid', 'valid-odd-path', 'valid-utf8-path')
 
 
 def method_lists(tier):
